@@ -483,6 +483,9 @@ func verifInitGlobals() *Hub {
 	return hub
 }
 
+const verifStranger types.Uid = 99
+const verifRootUid types.Uid = 77
+
 const (
 	verifKindGrp = iota
 	verifKindChn
